@@ -322,6 +322,20 @@ def handle (s : Sys) (line : String) : Sys × String :=
   | ["putnew", id, k, f, m, p] =>
     (match parseRec k f m p with | some r => s.exec id (.putNew r) | none => (s, "bad-op"))
   | ["del", id, k] => s.exec id (.delete k)
+  | ["reput", id, k] =>
+    -- Get, then Put of the object that came back
+    (match s.iface id with
+     | some i =>
+       let st : ISt := { store := s.store, cache := i.cache, wcache := i.wcache, notes := [] }
+       (match getRecord s.cfg i.opts st k T with
+        | (.error e, st1) =>
+          ((({ s with store := st1.store, subs := deliver s.subs st1.notes } : Sys).setIface
+              { i with cache := st1.cache, wcache := st1.wcache }), errStr e)
+        | (.ok r, st1) =>
+          let (st2, out) := ifPut s.cfg i.opts st1 r T false
+          ((({ s with store := st2.store, subs := deliver s.subs st2.notes } : Sys).setIface
+              { i with cache := st2.cache, wcache := st2.wcache }), showOut out))
+     | none => (s, "bad-op"))
   | ["setabs", id, k, t] => (match parseTs t with | some t => s.exec id (.setAbs k t) | none => (s, "bad-op"))
   | ["setrel", id, k, d] => (match d.toInt? with | some d => s.exec id (.setRel k d) | none => (s, "bad-op"))
   | ["mksecret", id, k] => s.exec id (.mkSecret k)
